@@ -192,7 +192,7 @@ class Metadata:
                 dset = grp.create_dataset(k, data=v)
                 dset.attrs['type'] = 'tuple'.encode('utf-8')
             # of numbers
-            elif isinstance(v[0], Number):
+            elif isinstance(v[0], (Number,np.bool_)):
                 dset = grp.create_dataset(k, data=v)
                 dset.attrs['type'] = 'tuple'.encode('utf-8')
             # of tuples
@@ -233,7 +233,7 @@ class Metadata:
                 dset = grp.create_dataset(k, data=v)
                 dset.attrs['type'] = 'list'.encode('utf-8')
             # of numbers
-            elif isinstance(v[0], Number):
+            elif isinstance(v[0], (Number,np.bool_)):
                 dset = grp.create_dataset(k, data=v)
                 dset.attrs['type'] = 'list'.encode('utf-8')
             # of arrays
